@@ -10,6 +10,14 @@ Decided clauses:
   R12.2 alignment contract (E5): no aligned (> 1 byte) vector load/store goes through a pointer
         derived from a byte-pointer parameter of a public function.
   R12.3 capacity-dominated decoder accesses (shared with C15 R15.0).
+  R12.4 minimum-length guards (E1 intervals + fixed-extent read summaries): wherever a function
+        with a (buffer, length) parameter pair reads a constant extent of the buffer - a load at a
+        constant offset, or a call handing buffer + k to a callee that reads a fixed number of bytes
+        (fixed-size key/nonce/tag parameters, or an explicit constant length argument) - the branch
+        facts on the path establish length >= that extent; when the rest (buffer + k, length - d) is
+        passed on, the subtraction cannot wrap (length >= d) and stays inside (k <= d).
+  R12.5 no definite tail over-read: a fixed-size read at buffer + (length - r) - r being the remainder a
+        word loop leaves, bounded by the branch facts - needs at least that many bytes to remain.
 NOT decided: absence of out-of-bounds / undefined behaviour in general (needs a relational numeric
 domain over loop indices; goto-analyzer was tried and is unusable — DESIGN §7).
 """
@@ -169,6 +177,8 @@ def run(ctx, chk):
 
     # ---- R12.3 ------------------------------------------------------------------------------------------
     c15.decoder_rules(prog, chk, rule_prefix="R12.3")
+    # ---- R12.4 ------------------------------------------------------------------------------------------
+    min_length_rule(prog, chk)
 
 
 def chase_all(f, o):
@@ -240,6 +250,235 @@ def chase(f, o, depth=0):
     if len(roots) == 1 and not unknown:
         return roots[0][0], roots[0][1], stride
     return None, None, 0
+
+
+def length_pairs(fn):
+    """pointer parameter index -> index of the parameter holding its length (by the library's naming: X / Xlen, X_len)"""
+    names = {p["name"]: i for i, p in enumerate(fn.params)}
+    out = {}
+    for nm, i in names.items():
+        if not fn.params[i]["ty"].endswith("*"):
+            continue
+        for suf in ("len", "_len"):
+            j = names.get(nm + suf)
+            if j is not None and fn.params[j]["ty"] in ("i64", "i32"):
+                out[i] = j
+    return out
+
+
+class FixedExtent:
+    """number of leading bytes a function reads, on every returning path, through a pointer parameter that has no
+    length parameter of its own (fixed-size keys, nonces, tags, ...): loads at constant offsets, memcpy/memmove
+    sources with a constant length, and calls passing the pointer on (+ constant) to a callee with a constant length
+    argument or with its own fixed extent. The minimum over paths is taken, so reads that happen only under a
+    condition (e.g. on another length parameter) do not count. None when nothing is known."""
+
+    def __init__(self, prog):
+        self.prog = prog
+        self.memo = {}
+
+    def of(self, fn, j, depth=0):
+        key = (fn.key, j)
+        if key in self.memo:
+            return self.memo[key]
+        self.memo[key] = None
+        if fn.decl or depth > 8:
+            return None
+        try:
+            ps = cm.paths(self.prog, fn)
+        except AnalysisBroken:
+            return None
+        root = ("arg", j)
+        least = None
+        for p in ps:
+            if p.kind != "ret":
+                continue
+            best = 0
+            for e in p.events:
+                if e.kind == "load":
+                    if T.root(e.addr) == root:
+                        co, k = T.linear(e.addr)
+                        if set(co) == {root} and co[root] == 1 and k >= 0:
+                            best = max(best, k + e.size)
+                elif e.kind == "call":
+                    name = e.callee_name() or ""
+                    if e.callee[0] == "ext" and (name.startswith("llvm.memcpy") or name.startswith("llvm.memmove") or name in ("memcpy", "memmove")):
+                        if len(e.args) >= 3 and T.root(e.args[1]) == root and e.args[2][0] == "c":
+                            co, k = T.linear(e.args[1])
+                            if set(co) == {root} and k >= 0:
+                                best = max(best, k + e.args[2][1])
+                        continue
+                    if e.callee[0] != "fn":
+                        continue
+                    g = e.callee[1]
+                    gp = length_pairs(g)
+                    for k, a in enumerate(e.args):
+                        if k >= len(g.params) or T.root(a) != root:
+                            continue
+                        co, off = T.linear(a)
+                        if not (set(co) == {root} and co[root] == 1 and off >= 0):
+                            continue
+                        if k in gp and gp[k] < len(e.args):
+                            ln = e.args[gp[k]]
+                            if ln[0] == "c":
+                                best = max(best, off + ln[1])
+                        else:
+                            ex = self.of(g, k, depth + 1)
+                            if ex:
+                                best = max(best, off + ex)
+            least = best if least is None else min(least, best)
+        self.memo[key] = least or None
+        return self.memo[key]
+
+
+def min_length_rule(prog, chk):
+    fx = FixedExtent(prog)
+    nob = nfn = 0
+    for fn in sorted(prog.functions(), key=lambda f: (f.unit, f.name)):
+        if fn.decl:
+            continue
+        pr = length_pairs(fn)
+        if not pr:
+            continue
+        try:
+            ps = cm.paths(prog, fn)
+        except AnalysisBroken:
+            continue
+        had = False
+        seen = set()
+        for p in ps:
+            for e in p.events:
+                reqs = []      # (pointer param, required extent, what)
+                if e.kind == "load":
+                    r = T.root(e.addr)
+                    if r[0] == "arg" and r[1] in pr:
+                        co, k = T.linear(e.addr)
+                        if set(co) == {r} and co[r] == 1 and k >= 0:
+                            reqs.append((r[1], k + e.size, None, "load of %d byte(s) at offset %d" % (e.size, k)))
+                elif e.kind == "call" and e.callee[0] == "fn":
+                    g = e.callee[1]
+                    gp = length_pairs(g)
+                    for k, a in enumerate(e.args):
+                        if k >= len(g.params):
+                            continue
+                        r = T.root(a)
+                        if not (r[0] == "arg" and r[1] in pr):
+                            continue
+                        co, off = T.linear(a)
+                        if not (set(co) == {r} and co[r] == 1 and off >= 0):
+                            continue
+                        LEN = ("arg", pr[r[1]])
+                        if k in gp and gp[k] < len(e.args):
+                            L = e.args[gp[k]]
+                            lco, lk = T.linear(L)
+                            if not lco:
+                                reqs.append((r[1], off + lk, None, "%s reads %d byte(s) from offset %d" % (g.sname, lk, off)))
+                            elif lco == {LEN: 1}:
+                                # (buffer + off, length + lk): inside iff off + lk <= 0 and the subtraction cannot wrap
+                                reqs.append((r[1], -lk, off + lk <= 0, "%s is handed (buffer + %d, length - %d)" % (g.sname, off, -lk)))
+                        else:
+                            ex = fx.of(g, k)
+                            if ex is not None:
+                                reqs.append((r[1], off + ex, None, "%s reads a fixed %d byte(s) from offset %d" % (g.sname, ex, off)))
+                for pi, need, inside, what in reqs:
+                    if need <= 0 and inside is not False:
+                        continue
+                    key = (e.iid, pi, need)
+                    LEN = ("arg", pr[pi])
+                    iv = p.facts_before(e.idx).interval(LEN) or (0, M64)
+                    ok = iv[0] >= need and inside is not False
+                    had = True
+                    if ok and key in seen:
+                        continue
+                    seen.add(key)
+                    nob += 1
+                    chk.ob("R12.4", fn, "%s >= %d is established before %s" % (fn.params[pr[pi]]["name"], need, what), ok,
+                           loc=fn.loc(e.iid), detail="" if ok else "branch facts give %s in [%d, %s]%s" % (
+                               fn.params[pr[pi]]["name"], iv[0], "2^64-1" if iv[1] >= M64 else iv[1],
+                               "; the part handed on extends past the end" if inside is False else ""),
+                           path=None if ok else p, key="R12.4 %s %s" % (fn.sname, fn.params[pi]["name"]))
+        if had:
+            nfn += 1
+    chk.floor("R12.4", "functions with a fixed-extent read of a length-paired buffer", nfn, 5)
+    chk.floor("R12.4", "minimum-length obligations", nob, 8)
+
+    # ---- R12.5 definite over-read at the tail ---------------------------------------------------------------------
+    # A read of a fixed number of bytes at buffer + (length - r), where the branch facts bound r below that number
+    # (r = length % 8 after a word loop, r = length & 15, ...), reads past the end whenever it executes.
+    ntail = 0
+    for fn in sorted(prog.functions(), key=lambda f: (f.unit, f.name)):
+        if fn.decl:
+            continue
+        pr = length_pairs(fn)
+        if not pr:
+            continue
+        try:
+            ps = cm.paths(prog, fn)
+        except AnalysisBroken:
+            continue
+        flagged = set()
+        for p in ps:
+            for e in p.events:
+                reads = []          # (address term, extent, what)
+                if e.kind == "load":
+                    reads.append((e.addr, e.size, "load of %d byte(s)" % e.size))
+                elif e.kind == "call" and e.callee[0] == "fn":
+                    g = e.callee[1]
+                    gp = length_pairs(g)
+                    for k, a in enumerate(e.args):
+                        if k < len(g.params) and k not in gp and g.params[k]["ty"].endswith("*"):
+                            ex = fx.of(g, k)
+                            if ex:
+                                reads.append((a, ex, "%s reads a fixed %d byte(s)" % (g.sname, ex)))
+                for a, ext, what in reads:
+                    co, k = T.linear(a)
+                    fb = None
+                    # a loop-carried pointer that the exit test equates with an end pointer
+                    for atom in list(co):
+                        if atom[0] == "havoc" and co[atom] == 1:
+                            fb = fb or p.facts_before(e.idx)
+                            for t, v in fb.items:
+                                if t[0] == "icmp" and t[1] == "eq" and v and atom in (t[2], t[3]):
+                                    other = t[3] if t[2] == atom else t[2]
+                                    oc, ok_ = T.linear(other)
+                                    co = dict(co)
+                                    del co[atom]
+                                    for x, n in oc.items():
+                                        co[x] = co.get(x, 0) + n
+                                    k += ok_
+                                    break
+                    roots = [x for x in co if x[0] == "arg" and x[1] in pr and co[x] == 1]
+                    if len(roots) != 1:
+                        continue
+                    P = roots[0]
+                    LEN = ("arg", pr[P[1]])
+                    rest = {x: n for x, n in co.items() if x != P and n}
+                    if rest.get(LEN, 0) != 1:
+                        continue
+                    others = {x: n for x, n in rest.items() if x != LEN}
+                    if len(others) != 1:
+                        continue
+                    (r, n), = others.items()
+                    if n != -1:
+                        continue
+                    # remaining bytes at the access = r - k
+                    fb = fb or p.facts_before(e.idx)
+                    iv = fb.interval(r)
+                    if r[0] == "bin" and r[1] == "urem" and r[3][0] == "c" and r[3][1] > 0:
+                        iv = (0, min(r[3][1] - 1, iv[1] if iv else r[3][1] - 1))
+                    if iv is None:
+                        continue
+                    ntail += 1
+                    ok = iv[1] - k >= ext
+                    if ok or e.iid in flagged:
+                        continue
+                    flagged.add(e.iid)
+                    chk.ob("R12.5", fn, "a fixed-size read at the tail of %s stays inside the buffer" % fn.params[P[1]]["name"], False,
+                           loc=fn.loc(e.iid), detail="%s at %s + (%s - %s)%+d, but at most %d byte(s) remain there"
+                           % (what, fn.params[P[1]]["name"], fn.params[LEN[1]]["name"], T.show(r, fn), k, iv[1] - k), path=p,
+                           key="R12.5 %s" % fn.sname)
+    chk.ob("R12.5", "library", "no fixed-size read at buffer + (length - r) with fewer than that many bytes left "
+           "(%d tail accesses with a bounded remainder examined)" % ntail, True, key="R12.5 scan")
 
 
 def aligned_ok(base_align, off, stride, need):
